@@ -7,11 +7,14 @@
 (*   is the UPPER bound.  A point is mapped to the index of a nearest node in *)
 (*   the grid parameter u (u = (x - a)/(b - a), resp. u = t), either          *)
 (*   neighbour at an exact midpoint, clamped to 0..n-1 outside the box.       *)
-(* Also: scaling with clipping, flat grid order, empirical CDF.               *)
+(* Also: scaling with clipping, flat grid order, empirical CDF, and the        *)
+(* Dvoretzky-Kiefer-Wolfowitz band around it (cdf_confidence): the band half-  *)
+(* width eps = sqrt(ln(2/alpha)/(2m)) is a rational parameter here; the replay  *)
+(* picks alpha so that the routine's own eps is that rational.                  *)
 (***************************************************************************)
 EXTENDS Integers, Sequences, FiniteSets, TLC, Json, Rat, TT
 
-CONSTANTS NSet, EighthsOut, FlatShapes, CdfSamples, CdfQueries
+CONSTANTS NSet, EighthsOut, FlatShapes, CdfSamples, CdfQueries, BandM, BandEps
 VARIABLE c
 
 \* nearest node(s) for the grid parameter u = <<p, q>> (q > 0): indices i with |u (n-1) - i| minimal, clamped
@@ -29,10 +32,14 @@ Params(n) == { <<8 * i, 8 * (n - 1)>> : i \in 0..(n - 1) }
         \cup { <<e, 8>> : e \in EighthsOut }
 Scale01(u) == IF u[1] < 0 THEN <<0, 1>> ELSE IF u[1] > u[2] THEN <<1, 1>> ELSE RNorm(u[1], u[2])
 
+\* DKW band around the empirical CDF values k/m (k = 1..m), half-width eps = <<p, 64>>, clipped to [0, 1]; in 64m-ths
+BandLo(k, m, e) == LET v == 64 * k - e * m IN RNorm(IF v < 0 THEN 0 ELSE v, 64 * m)
+BandHi(k, m, e) == LET v == 64 * k + e * m IN RNorm(IF v > 64 * m THEN 64 * m ELSE v, 64 * m)
 Cases ==
   { [kind |-> "near", n |-> n, u |-> u] : n \in NSet, u \in UNION { Params(m) : m \in NSet } } \cup
   { [kind |-> "flat", shape |-> s] : s \in FlatShapes } \cup
-  { [kind |-> "cdf", smp |-> s, z |-> z] : s \in CdfSamples, z \in CdfQueries }
+  { [kind |-> "cdf", smp |-> s, z |-> z] : s \in CdfSamples, z \in CdfQueries } \cup
+  { [kind |-> "band", m |-> m, eps |-> e] : m \in BandM, e \in BandEps }
 Init == c \in Cases
 Next == UNCHANGED c
 Spec == Init /\ [][Next]_c
@@ -43,6 +50,7 @@ FlatRow(p, shape) == Rev([k \in 1..Len(shape) |-> MultiIdx(p, Rev(shape))[k] - 1
 Expected ==
   CASE c.kind = "near" -> [idx |-> NearestSet(c.u, c.n), scaled |-> Scale01(c.u)]
     [] c.kind = "flat" -> [rows |-> [p \in 1..Size(c.shape) |-> FlatRow(p, c.shape)]]
+    [] c.kind = "band" -> [lo |-> [k \in 1..c.m |-> BandLo(k, c.m, c.eps)], hi |-> [k \in 1..c.m |-> BandHi(k, c.m, c.eps)]]
     [] c.kind = "cdf" -> [num |-> Cardinality({ k \in 1..Len(c.smp) : c.smp[k] <= c.z }), den |-> Len(c.smp)]
 
 \* a node is mapped to itself; the map is monotone in the parameter
@@ -50,11 +58,21 @@ NodeFixed == c.kind = "near" => \A i \in 0..(c.n - 1) : NearestSet(<<i, c.n - 1>
 FlatBijective == c.kind = "flat" =>
    /\ Cardinality({ FlatRow(p, c.shape) : p \in 1..Size(c.shape) }) = Size(c.shape)
    /\ \A p \in 1..(Size(c.shape) - 1) : (p % c.shape[1] # 0) => FlatRow(p + 1, c.shape)[1] = FlatRow(p, c.shape)[1] + 1
+\* the band contains the empirical CDF, stays in [0, 1], is monotone, is never wider than 2 eps and is exactly 2 eps wide
+\* wherever neither side is clipped
+BandSound == c.kind = "band" => \A k \in 1..c.m :
+   LET lo == BandLo(k, c.m, c.eps)  hi == BandHi(k, c.m, c.eps)  x == RNorm(k, c.m) IN
+   /\ RLeq(<<0, 1>>, lo) /\ RLeq(lo, x) /\ RLeq(x, hi) /\ RLeq(hi, <<1, 1>>)
+   /\ RLeq(RSub(hi, lo), RNorm(2 * c.eps, 64))
+   /\ (64 * k - c.eps * c.m >= 0 /\ 64 * k + c.eps * c.m <= 64 * c.m) => RSub(hi, lo) = RNorm(2 * c.eps, 64)
+   /\ k < c.m => (RLeq(lo, BandLo(k + 1, c.m, c.eps)) /\ RLeq(hi, BandHi(k + 1, c.m, c.eps)))
 Emit == PrintT(ToJson([case |-> c, exp |-> Expected]))
 NQ == {2, 3, 4, 5, 8, 16}
 NT == {2, 3, 4, 5, 6, 7, 8, 9, 16, 17, 33, 64}
 Out == {-8, -1, 9, 24}
 FS == { <<2>>, <<2, 3>>, <<3, 2, 2>>, <<1, 3>>, <<2, 2, 2, 2>> }
 CS == { <<3, 1, 2>>, <<1, 1, 2, 2, 5>>, <<4>>, <<-1, 0, 0, 3>> }
+BM == {1, 2, 3, 5, 8, 13}
+BE == {1, 4, 9, 16, 31, 32, 33, 64, 80}
 CQ == {-2, -1, 0, 1, 2, 3, 4, 5, 6}
 =============================================================================
